@@ -49,7 +49,7 @@ theorem Sqrt_triple (g : Globals) (d : Gen.Decimal) :
     | .inl st => ⌜st.1.sig.toNat ≠ 0⌝
     | .inr st => ⌜st.1.sig.toNat ≠ 0⌝
   all_goals (simp +zetaDelta at *)
-  all_goals (try have hnz' := hnz ‹_›)
+  all_goals (try have hnz' := hnz (by first | assumption | (casesm* _ ∧ _ <;> assumption)))
   all_goals d192_prep
   all_goals d192_fin
 
@@ -64,7 +64,7 @@ theorem Cbrt_triple (g : Globals) (d : Gen.Decimal) :
     | .inl st => ⌜st.1.sig.toNat ≠ 0⌝
     | .inr st => ⌜st.1.sig.toNat ≠ 0⌝
   all_goals (simp +zetaDelta at *)
-  all_goals (try have hnz' := hnz ‹_›)
+  all_goals (try have hnz' := hnz (by first | assumption | (casesm* _ ∧ _ <;> assumption)))
   all_goals d192_prep
   all_goals d192_fin
 
@@ -75,7 +75,7 @@ theorem Exp_triple (g : Globals) (d : Gen.Decimal) :
   have hnz := sig_ne_zero d
   mvcgen -trivial [Gen.Exp, he, hr]
   all_goals (simp +zetaDelta at *)
-  all_goals (try have hnz' := hnz ‹_›)
+  all_goals (try have hnz' := hnz (by first | assumption | (casesm* _ ∧ _ <;> assumption)))
   all_goals d192_prep
   all_goals d192_fin
 
@@ -85,7 +85,7 @@ theorem Expm1_triple (g : Globals) (d : Gen.Decimal) :
   have hnz := sig_ne_zero d
   mvcgen -trivial [Gen.Expm1, he]
   all_goals (simp +zetaDelta at *)
-  all_goals (try have hnz' := hnz ‹_›)
+  all_goals (try have hnz' := hnz (by first | assumption | (casesm* _ ∧ _ <;> assumption)))
   all_goals d192_prep
   all_goals d192_fin
 
@@ -104,7 +104,7 @@ theorem Exp10_triple (g : Globals) (d : Gen.Decimal) :
   case inv5 => exact fun st => ⟨st.2.2.toNat⟩
   case inv6 => exact ⇓ _ => ⌜True⌝
   all_goals (simp +zetaDelta at *)
-  all_goals (try have hnz' := hnz ‹_›)
+  all_goals (try have hnz' := hnz (by first | assumption | (casesm* _ ∧ _ <;> assumption)))
   all_goals d192_prep
   all_goals d192_fin
 
